@@ -5,6 +5,7 @@ import (
 	"crypto"
 	"crypto/rsa"
 	"fmt"
+	"math"
 	"math/big"
 
 	"github.com/fxamacker/cbor/v2"
@@ -87,11 +88,16 @@ func UnmarshalRSAPublicKey(raw []byte) (key *RSAPublicKey, remaining []byte, err
 		return nil, nil, fmt.Errorf("%w: %v", ErrUnsupportedKeyType, obj.Type)
 	}
 
+	exponent := big.NewInt(0).SetBytes(obj.Exponent)
+	if !exponent.IsInt64() || exponent.Int64() > math.MaxInt {
+		return nil, nil, fmt.Errorf("%w: exponent too large", ErrInvalidPublicKey)
+	}
+
 	publicKey := rsa.PublicKey{
 		// All numbers are stored as unsigned, big-endian integers. This is the same format
 		// as big.Int.
 		N: big.NewInt(0).SetBytes(obj.Modulus),
-		E: int(big.NewInt(0).SetBytes(obj.Exponent).Int64()),
+		E: int(exponent.Int64()),
 	}
 
 	key, err = NewRSAPublicKey(obj.Algorithm, publicKey)
